@@ -286,21 +286,34 @@ Definition shifted (l : loc) (offset : Z) (wrap_given : bool) : res loc :=
           if negb (s <? e) then Err E_Assert else
           if wrap_given || ((0 <=? s) && (0 <? e)) then Ok (mkPart s e (pst p)) else Err E_Assert) l.
 
+(* the final merge loop (after the repair of findings C04-K2 offset_merge_drops_part and C04-K3
+   offset_reverse_wrap_order): `previous` is the last raw part, acc_rev the list `merged` reversed.
+   Two consecutive reverse-strand parts run downwards: they are merged when previous.start == part.end
+   (merged[-1] = FeatureLocation(part.start, merged[-1].end)), never in the listed (ascending) direction;
+   otherwise a part starting at previous.end extends the last MERGED part
+   (merged[-1] = FeatureLocation(merged[-1].start, part.end)) *)
 Fixpoint merge_adjacent (prev : part) (acc_rev : list part) (l : list part) : res (list part) :=
   match l with
   | [] => Ok (rev acc_rev)
   | p :: r =>
-    if pe prev =? ps p then
+    if (pst prev =? -1) && (pst p =? -1) then
+      if ps prev =? pe p then
+        match acc_rev with
+        | [] => Err E_Assert
+        | last :: acc' => merge_adjacent p (mkPart (ps p) (pe last) (pst p) :: acc') r
+        end
+      else merge_adjacent p (p :: acc_rev) r
+    else if pe prev =? ps p then
       if negb (pst prev =? pst p) then Err E_Assert else
       match acc_rev with
       | [] => Err E_Assert
-      | last :: acc' =>
-        (* merged[-1] = FeatureLocation(previous.start, part.end): previous is the last raw part *)
-        merge_adjacent p (mkPart (ps prev) (pe p) (pst p) :: acc') r
+      | last :: acc' => merge_adjacent p (mkPart (ps last) (pe p) (pst p) :: acc') r
       end
     else merge_adjacent p (p :: acc_rev) r
   end.
 
+(* a shifted part that crosses the wrap point is split; on the reverse strand the half after the
+   origin is listed first (halves.reverse()) *)
 Definition offset_location (l : loc) (offset : Z) (wrap : option Z) : res loc :=
   match wrap with
   | None => shifted l offset false
@@ -316,6 +329,7 @@ Definition offset_location (l : loc) (offset : Z) (wrap : option Z) : res loc :=
           let s := (ps p + w) mod w in
           let e := (pe p - 1 + w) mod w + 1 in
           if (0 <=? s) && (s <? e) && (e <=? w) then [mkPart s e (pst p)]
+          else if pst p =? -1 then [mkPart 0 e (pst p); mkPart s w (pst p)]
           else [mkPart s w (pst p); mkPart 0 e (pst p)]) parts in
       if negb (forallb (fun p => (0 <=? ps p) && (ps p <? pe p) && (pe p <=? w)) new_parts)
       then Err E_Assert else
